@@ -116,6 +116,30 @@ func After(d Duration) *vchan.Chan[Time] {
 type Timer struct {
 	C       *vchan.Chan[Time]
 	stopped *bool
+	f       func() // AfterFunc timers
+}
+
+// Reset re-arms the timer to fire after d; it reports whether the timer had been active.
+func (t *Timer) Reset(d Duration) bool {
+	was := !*t.stopped
+	*t.stopped = true // the pending firing, if any, is cancelled
+	stopped := new(bool)
+	t.stopped = stopped
+	if s := sched.Cur; s != nil && !s.Aborted() {
+		c, f := t.C, t.f
+		s.AddTimer(int64(d), func() {
+			if *stopped {
+				return
+			}
+			*stopped = true
+			if f != nil {
+				sched.GoFromTimer(f)
+			} else {
+				c.TrySendFromTimer(time.Unix(0, Epoch+s.NowNs).UTC())
+			}
+		})
+	}
+	return was
 }
 
 // NewTimer returns a timer that fires after d.
@@ -196,7 +220,7 @@ func AfterFunc(d Duration, f func()) *Timer {
 			}
 		})
 	}
-	return &Timer{C: nil, stopped: stopped}
+	return &Timer{C: nil, stopped: stopped, f: f}
 }
 
 // Pass-throughs.
